@@ -107,17 +107,31 @@ class World:
         self.inline = rng.random() < 0.25
         self.base = None
         self.components = []        # (pkg name, [typedefs])
+        self.imports = {}           # pkg name -> packages its component imports
         self.schema_level = None    # component imported by the schema itself
         if not self.inline:
             self.base = space.new_name("base")
             space.write(self.base, {"abstract.xml":
                                     packages.abstract_xml(model)})
-            for i in range(rng.randint(0, 2)):
-                name = space.new_name("comp%d" % i)
+            ncomp = rng.randint(0, 2)
+            names = [space.new_name("comp%d" % i) for i in range(ncomp)]
+            # component packages may import each other (also in a cycle, or
+            # themselves): importing one then brings in what it imports,
+            # each component once
+            cyc = rng.random()
+            for i, name in enumerate(names):
                 ctypes = packages.gen_component_types(rng, model,
                                                       "p%d" % i)
+                imports = []
+                if cyc < 0.15 and ncomp == 2:
+                    imports = [names[1 - i]]            # mutual
+                elif cyc < 0.25:
+                    imports = [name]                    # itself
+                elif cyc < 0.35 and ncomp == 2 and i == 0:
+                    imports = [names[1]]                # chain
+                self.imports[name] = imports
                 space.write(name, {"component.xml": packages.component_xml(
-                    ctypes, self.base)})
+                    ctypes, self.base, imports)})
                 self.components.append((name, ctypes))
             if rng.random() < 0.3:
                 name = space.new_name("scomp")
@@ -138,14 +152,26 @@ class World:
         import ZConfig
         self.schema = ZConfig.loadSchemaFile(io.StringIO(self.xml))
 
+    def closure(self, imported):
+        """The packages whose components are in after importing these."""
+        reach = set()
+        todo = [n for n in imported]
+        while todo:
+            n = todo.pop()
+            if n not in reach:
+                reach.add(n)
+                todo.extend(self.imports.get(n, ()))
+        return reach
+
     def resolved_with(self, imported):
         """Resolved model of the schema plus the given imported packages."""
         import copy
         m = copy.deepcopy(self.model)
         if self.schema_level:
             m["types"].extend(copy.deepcopy(self.schema_level[1]))
+        reach = self.closure(imported)
         for name, ctypes in self.components:
-            if name in imported:
+            if name in reach:
                 m["types"].extend(copy.deepcopy(ctypes))
         return family.Resolved(m)
 
@@ -278,7 +304,7 @@ def expected(w, text):
                 imported.append(e[1])
         elif e[0] == "open":
             owner = comp_types.get(e[3])
-            if owner is not None and owner not in imported:
+            if owner is not None and owner not in w.closure(imported):
                 return ("reject", "match",
                         "type %s used before its %%import" % e[3])
     res = w.resolved_with(imported)
